@@ -1044,6 +1044,80 @@ type c17StressMask struct {
 	ign  [][]string
 }
 
+// c17StressDescs describes the masks of a started plugin for the specification
+func c17StressDescs(p0 *Plugin, sm []c17StressMask) []c17MaskDesc {
+	var descs []c17MaskDesc
+	for i := range p0.config.Masks {
+		m := &p0.config.Masks[i]
+		d := c17MaskDesc{HasRe: m.Re != "", G: append([]int{}, m.Groups...), MC: m.MaxCount,
+			Word: c17Ints([]byte(m.ReplaceWord)), Proc: [][]string{}, Ign: [][]string{}, AF: m.AppliedField,
+			DoIf: sm[i].cond, Rules: c17RuleDesc(m.MatchRules)}
+		switch {
+		case m.CutValues:
+			d.Mode = "cut"
+		case m.ReplaceWord != "":
+			d.Mode = "replace"
+		default:
+			d.Mode = "mask"
+		}
+		if sm[i].proc != nil {
+			d.Proc = sm[i].proc
+		}
+		if sm[i].ign != nil {
+			d.Ign = sm[i].ign
+		}
+		descs = append(descs, d)
+	}
+	return descs
+}
+
+// c17StressBefore flattens the decoded event and attaches, per maskable leaf and mask, the regexp's table on
+// the leaf and (second mask) the real result of the first mask alone on it together with the table on that
+func c17StressBefore(p0 *Plugin, sm []c17StressMask, root *insaneJSON.Root) []c17FLeaf {
+	bf := c17Flatten(root.Node, []string{}, nil)
+	for li := range bf {
+		lf := &bf[li]
+		lf.MI = []c17MI{}
+		if lf.T == "o" {
+			continue
+		}
+		vb := make([]byte, len(lf.V))
+		for i, x := range lf.V {
+			vb[i] = byte(x)
+		}
+		for i := range p0.config.Masks {
+			mi := c17MI{Tb: [][]int{}, Mid: []int{}, CWm: []int{}, Tm: [][]int{}}
+			re := p0.config.Masks[i].Re_
+			mi.Tb = c17Table(re, vb)
+			if i == 1 {
+				// the real result of the first mask alone (no do_if, no lists, no rules) on this leaf
+				m0 := sm[0].mask
+				m0.DoIfCheckerMap, m0.ProcessFields, m0.IgnoreFields, m0.MatchRules = nil, nil, nil, nil
+				mp, rej := c17Start(&Config{Masks: []Mask{m0}})
+				if mp == nil {
+					panic("intermediate plugin rejected: " + rej)
+				}
+				r2 := insaneJSON.Spawn()
+				d2 := `{"k":"` + string(vb) + `"}`
+				if lf.T == "n" {
+					d2 = `{"k":` + string(vb) + `}`
+				}
+				if err := r2.DecodeString(d2); err != nil {
+					panic(err)
+				}
+				if _, panicked := c17Do(mp, &pipeline.Event{Root: r2}); panicked {
+					panic("intermediate value unavailable")
+				}
+				mid := append([]byte{}, r2.Dig("k").AsBytes()...)
+				insaneJSON.Release(r2)
+				mi.Mid, mi.CWm, mi.Tm = c17Ints(mid), c17Widths(mid), c17Table(re, mid)
+			}
+			lf.MI = append(lf.MI, mi)
+		}
+	}
+	return bf
+}
+
 type c17Outcome struct {
 	after []c17FLeaf
 	res   string
@@ -1149,28 +1223,7 @@ func c17RunStress(w *c17Writer, sum *c17Summary, rng *rand.Rand, thorough bool, 
 			continue
 		}
 		p0 := plugins[0]
-		var descs []c17MaskDesc
-		for i := range p0.config.Masks {
-			m := &p0.config.Masks[i]
-			d := c17MaskDesc{HasRe: m.Re != "", G: append([]int{}, m.Groups...), MC: m.MaxCount,
-				Word: c17Ints([]byte(m.ReplaceWord)), Proc: [][]string{}, Ign: [][]string{}, AF: m.AppliedField,
-				DoIf: sm[i].cond, Rules: c17RuleDesc(m.MatchRules)}
-			switch {
-			case m.CutValues:
-				d.Mode = "cut"
-			case m.ReplaceWord != "":
-				d.Mode = "replace"
-			default:
-				d.Mode = "mask"
-			}
-			if sm[i].proc != nil {
-				d.Proc = sm[i].proc
-			}
-			if sm[i].ign != nil {
-				d.Ign = sm[i].ign
-			}
-			descs = append(descs, d)
-		}
+		descs := c17StressDescs(p0, sm)
 		// the "before" half of the records, prepared single-threaded
 		befores := make([][]c17FLeaf, len(docs))
 		root := insaneJSON.Spawn()
@@ -1178,47 +1231,7 @@ func c17RunStress(w *c17Writer, sum *c17Summary, rng *rand.Rand, thorough bool, 
 			if err := root.DecodeString(doc); err != nil {
 				panic(err)
 			}
-			bf := c17Flatten(root.Node, []string{}, nil)
-			for li := range bf {
-				lf := &bf[li]
-				lf.MI = []c17MI{}
-				if lf.T == "o" {
-					continue
-				}
-				vb := make([]byte, len(lf.V))
-				for i, x := range lf.V {
-					vb[i] = byte(x)
-				}
-				for i := range p0.config.Masks {
-					mi := c17MI{Tb: [][]int{}, Mid: []int{}, CWm: []int{}, Tm: [][]int{}}
-					re := p0.config.Masks[i].Re_
-					mi.Tb = c17Table(re, vb)
-					if i == 1 {
-						// the real result of the first mask alone (no do_if, no lists, no rules) on this leaf
-						m0 := sm[0].mask
-						m0.DoIfCheckerMap, m0.ProcessFields, m0.IgnoreFields, m0.MatchRules = nil, nil, nil, nil
-						mp, rej := c17Start(&Config{Masks: []Mask{m0}})
-						if mp == nil {
-							panic("intermediate plugin rejected: " + rej)
-						}
-						r2 := insaneJSON.Spawn()
-						d2 := `{"k":"` + string(vb) + `"}`
-						if lf.T == "n" {
-							d2 = `{"k":` + string(vb) + `}`
-						}
-						if err := r2.DecodeString(d2); err != nil {
-							panic(err)
-						}
-						if _, panicked := c17Do(mp, &pipeline.Event{Root: r2}); panicked {
-							panic("intermediate value unavailable")
-						}
-						mid := append([]byte{}, r2.Dig("k").AsBytes()...)
-						insaneJSON.Release(r2)
-						mi.Mid, mi.CWm, mi.Tm = c17Ints(mid), c17Widths(mid), c17Table(re, mid)
-					}
-					lf.MI = append(lf.MI, mi)
-				}
-			}
+			bf := c17StressBefore(p0, sm, root)
 			befores[di] = bf
 		}
 		insaneJSON.Release(root)
